@@ -467,12 +467,58 @@ def install_seams():
 DOC_EXC = {"RSA": (ValueError, IndexError, TypeError), "DSA": (ValueError,), "ECC": (ValueError,)}
 
 
+_PP_CHANGED = [None]
+
+
 def _export(key, t, kw, tape_label, priv):
     kw = dict(kw)
     _DET.reset(tape_label)
     if t in ("RSA", "DSA") or priv:
         kw["randfunc"] = Stream("c08-tape|" + tape_label)
-    return key.export_key(**kw)
+    pp = kw.get("prot_params")
+    before = dict(pp) if isinstance(pp, dict) else None
+    _PP_CHANGED[0] = None
+    try:
+        return key.export_key(**kw)
+    finally:
+        if before is not None and pp != before:
+            _PP_CHANGED[0] = (before, dict(pp))
+            pp.clear()
+            pp.update(before)              # the configuration tables are shared between cases
+
+
+def pp_reuse_case(kd, acc):
+    """ONE prot_params dictionary of the caller handed to two exports with protections of different KDF families (both orders): both
+    exports succeed, import with the passphrase gives the key back, and the dictionary is what the caller made it"""
+    key = KS.libkey(kd, True)
+    t = kd["t"]
+    mod = __import__("Crypto.PublicKey." + t, fromlist=["import_key"])
+    prots = ("PBKDF2WithHMAC-SHA256AndAES128-CBC", "scryptAndAES128-CBC")
+    for order in ((0, 1), (1, 0)):
+        pp = {"salt_size": 16}
+        for j in order:
+            acc.count("evaluations")
+            kw = {"format": "DER", "passphrase": P0, "protection": prots[j], "prot_params": pp}
+            if t == "RSA":
+                kw["pkcs"] = 8
+            case = {"part": "pp-reuse", "kd": kd}
+            what = "%s private key %s: export_key(DER, %s) with the caller's dictionary %r that was used for %s before" % (
+                t, kd["name"], prots[j], {"salt_size": 16}, "no export" if j == order[0] else prots[order[0]])
+            try:
+                blob = key.export_key(**kw)
+                back = mod.import_key(blob, passphrase=P0)
+            except Exception as e:  # noqa
+                acc.violation("C08/%s/export/depends-on-earlier-use-of-the-prot_params-dictionary" % t,
+                              what + " raised %s: %s" % (type(e).__name__, e), case)
+                break
+            if KS.lib_comps(back) != KS.expected_comps(kd, True):
+                acc.violation("C08/%s/export/depends-on-earlier-use-of-the-prot_params-dictionary" % t, what + ": the re-imported key differs", case)
+                break
+        if pp != {"salt_size": 16}:
+            acc.violation("C08/%s/export/prot_params-dictionary-changed" % t,
+                          "%s private key %s: after two exports the caller's prot_params dictionary %r has become %r"
+                          % (t, kd["name"], {"salt_size": 16}, pp), {"part": "pp-reuse", "kd": kd})
+    acc.seen("classes", ("pp-reuse", t))
 
 
 def _import(t, kd, blob, pw, container):
@@ -633,6 +679,8 @@ def rt_case(kd, priv, kw, tape, acc, size=None, deep=False):
         viol("export/raises-%s@%s" % (type(e).__name__, exc_site(e)), "raised %s: %s (documented: ValueError)"
              % (type(e).__name__, e))
         return "exc"
+    if _PP_CHANGED[0] is not None:
+        viol("export/prot_params-dictionary-changed", "the caller's prot_params dictionary %r has become %r" % _PP_CHANGED[0])
     if exp["outcome"] in ("refuse", "unsupported"):
         # the property speaks about supported combinations only: an accepted combination that the documentation
         # excludes (or promises to refuse) is logged, never judged
@@ -838,6 +886,8 @@ def rt_worker(shard):
         rt_case(kd, priv, kw, tape, acc, size=(2 * kidx + (0 if priv else 1)) * 2000 + i, deep=deep)
     if (name, priv, lo) in SAMPLE_FROM and _LAST[0]:
         acc.sample(_LAST[0])
+    if priv and lo == 0 and kd["t"] in ("RSA", "ECC"):
+        pp_reuse_case(kd, acc)
     return acc
 
 
@@ -1363,6 +1413,11 @@ def replay(case, acc):
         if kd.get("seed") is not None:
             kd["seed"] = bytes(kd["seed"])
         rt_case(kd, case["priv"], case["kw"], case["tape"], acc, deep=bool(case.get("deep")))
+    elif part == "pp-reuse":
+        kd = case["kd"]
+        if kd.get("seed") is not None:
+            kd["seed"] = bytes(kd["seed"])
+        pp_reuse_case(kd, acc)
     elif part == "eq":
         oa, ob = case["a"], case["b"]
         for o in (oa, ob):
